@@ -413,10 +413,10 @@ func Test35ContentErrorUnwind(t *testing.T) {
 
 func Test36ReturnInBlock(t *testing.T) {
 	files := map[string]string{
-		"/r.jet": `{{block b()}}{{return "fromblock"}}{{end}}`,
+		"/r.jet":  `{{block b()}}{{return "fromblock"}}{{end}}`,
 		"/r2.jet": `{{block b()}}x{{yield content}}{{end}}{{yield b() content}}{{return "fromcontent"}}{{end}}`,
 		"/r3.jet": `{{return "early"}}{{block b()}}{{return "fromblock"}}{{end}}`,
-		"/t.jet": `[{{exec("/r.jet")}}][{{exec("/r2.jet")}}][{{exec("/r3.jet")}}]`,
+		"/t.jet":  `[{{exec("/r.jet")}}][{{exec("/r2.jet")}}][{{exec("/r3.jet")}}]`,
 	}
 	wantOut(t, run(nil, files, "/t.jet", nil, nil), "[fromblock][fromcontent][fromblock]")
 }
@@ -437,4 +437,17 @@ func Test38UnhashableKey(t *testing.T) {
 	v.Set("k", []int{1})
 	wantErr(t, one("\n{{ m[k] }}", v, nil), `"/t.jet":2`)
 	wantOut(t, one(`{{ m["a"] }}|{{ isset(m[k]) }}`, v, nil), "x|false")
+}
+
+func Test39PipedIntoVariadicOnly(t *testing.T) {
+	v := jet.VarMap{}
+	v.Set("join", func(parts ...string) string { return strings.Join(parts, "+") })
+	v.Set("sum", func(xs ...int) int {
+		s := 0
+		for _, x := range xs {
+			s += x
+		}
+		return s
+	})
+	wantOut(t, one(`{{ "a" | join }}|{{ "a" | join: "b", "c" }}|{{ join("a", "b") }}|{{ 1 | sum: 2, 3 }}|{{ 4 | sum }}`, v, nil), "a|a+b+c|a+b|6|4")
 }
